@@ -6,7 +6,8 @@
 From Verif Require Import Base.Prelude Base.Str Base.Float Base.GoVal
   Schema.Regex Schema.Units Schema.Syntax Schema.Ops Schema.Cbor Schema.Describe
   Proofs.DescribeBase Proofs.C09Describe Proofs.C09Fixpoint Proofs.C09Plugin Proofs.C09Behaviour Proofs.C09Transport Proofs.C09Link Proofs.C09Behaviour2
-  Schema.MetaTable Generated.Tables Proofs.C09AccBase Proofs.C09AccTable Proofs.C09AccReader Proofs.C09AccReader2 Proofs.C09AccReader3 Proofs.C09AccPlugin.
+  Schema.MetaTable Generated.Tables Proofs.C09AccBase Proofs.C09AccTable Proofs.C09AccReader Proofs.C09AccReader2 Proofs.C09AccReader3 Proofs.C09AccPlugin
+  Schema.DescribeNest Proofs.C09Nest.
 Open Scope string_scope.
 
 (* C09_fixpoint.  For EVERY scope s that is describable, whose pattern sources regexp.Compile maps to their
@@ -508,3 +509,32 @@ Example C09_not_describable_refuted :
   (* and where SelfSerialize still produces a description, the meta-schema refuses it *)
   /\ forallb rebuild_fails [w_enum_key; w_bad_id; w_empty_display; w_empty_enum] = true.
 Proof. repeat split; vm_compute; reflexivity. Qed.
+
+(* ---- how deep a description nests on the wire (the ATP hello message; family c09hello) ----
+   gnest = the number of CBOR containers on the longest path of a value (what the decoder of the ATP client counts
+   against its MaxNestedLevels, cbor_max_nested = 32); tnest / plugin_nest = the structural budget of a schema that the
+   generator of family c09hello fills (harness hNest / hPluginNest): 5 per scope, 5 per one-of over objects, 3 per inline
+   object, 1 per list or map, at the leaf 4 with units, 3 for an enum, 2 for a reference, 1 otherwise; an input starts at
+   level 5 of the hello message, output and signal data schemas two maps deeper. *)
+(* C09_describe_nesting_bound.  For EVERY schema the description nests at most tnest s levels. *)
+Theorem C09_describe_nesting_bound : forall s : schema, (gnest (describe s) <= tnest s)%nat.
+Proof. exact describe_nest_bound. Qed.
+Print Assumptions C09_describe_nesting_bound.
+
+(* C09_hello_nesting_bound.  For EVERY plugin schema the hello message nests at most 4 + plugin_nest p levels. *)
+Theorem C09_hello_nesting_bound : forall p : dplugin, (hello_nest (describe_plugin p) <= 4 + plugin_nest p)%nat.
+Proof. exact hello_nest_bound. Qed.
+Print Assumptions C09_hello_nesting_bound.
+
+(* C09_hello_within_transport.  A plugin schema whose structural budget is at most 28 is within what the decoder of the
+   ATP client accepts (the depth limit of the generator of family c09hello; whether ReadSchema then really returns the
+   schema is what the family checks on every run). *)
+Theorem C09_hello_within_transport :
+  forall p : dplugin, (plugin_nest p <= 28)%nat -> (hello_nest (describe_plugin p) <= cbor_max_nested)%nat.
+Proof. exact hello_within_transport. Qed.
+Print Assumptions C09_hello_within_transport.
+
+(* the bound is met: a scope nested in a scope with a list at the leaf, 16 levels = 4 + 12 *)
+Example C09_hello_nesting_instance :
+  hello_nest (describe_plugin nest_demo) = 16%nat /\ (4 + plugin_nest nest_demo = 16)%nat /\ (plugin_nest nest_demo <= 28)%nat.
+Proof. vm_compute. repeat split. repeat constructor. Qed.
